@@ -5,6 +5,7 @@ package filters
 // every width, converted by the real call layer.
 
 import (
+	"strconv"
 	"math"
 
 	nd "github.com/osteele/liquid/zz_verifnd"
@@ -215,7 +216,7 @@ func VerifC17Round() {
 	nd.Reach("C17.round")
 }
 
-var c17Nums = []float64{-7, -2.5, -1, 0, 0.25, 1, 2, 3.75, 12}
+var c17Nums = []float64{-7, -2.5, -1, 0, 0.25, 1, 2, 3.75, 12, 5, 9007199254740992, 9223372036854775808, 18446744073709551616, -9223372036854775808, 1e300}
 
 // VerifC17Modulo: modulo on a forked operand set (math.Mod is native, concrete only):
 // zero divisor is an error, otherwise |r| < |b| and r has the dividend's sign.
@@ -231,7 +232,9 @@ func VerifC17Modulo() {
 			r := v.(float64)
 			nd.Assert(math.Abs(r) < math.Abs(b) && (r == 0 || (r < 0) == (a < 0)), "modulo-range-and-sign")
 			q := (a - r) / b
-			nd.Assert(q == math.Trunc(q), "modulo-quotient-integral")
+			nd.Assert(q == math.Trunc(q) || math.Abs(a) >= 1<<53, "modulo-quotient-integral")
+			// results are exact: the IEEE remainder of the two operands (fmod)
+			nd.Assert(r == math.Mod(a, b), "modulo-exact")
 		}
 	}
 	nd.Reach("C17.modulo")
@@ -239,7 +242,37 @@ func VerifC17Modulo() {
 
 // VerifC17Strings: a string that spells a number is accepted as the receiver; one that does not is an error.
 func VerifC17Strings() {
-	switch nd.Choice(4) {
+	switch nd.Choice(6) {
+	case 4:
+		// a string spells a number the way a decimal literal does: leading zeros are not octal, and
+		// base prefixes, digit separators and stray characters do not spell numbers
+		for _, c := range []struct {
+			s    string
+			want float64
+			ok   bool
+		}{{"010", 10, true}, {"-012", -12, true}, {"007.50", 7.5, true}, {"1e2", 100, true}, {"+5", 5, true}, {".5", 0.5, true},
+			{"0x10", 0, false}, {"0b11", 0, false}, {"0o17", 0, false}, {"12abc", 0, false}, {"", 0, false}, {"1 2", 0, false}} {
+			v, err := fEval("s | plus: 0", map[string]any{"s": c.s})
+			nd.Assert((err == nil) == c.ok, "string-spells-decimal-number")
+			if err == nil && c.ok {
+				nd.Assert(v.(float64) == c.want, "string-number-value")
+			}
+			v, err = fEval("1 | times: s", map[string]any{"s": c.s})
+			nd.Assert((err == nil) == c.ok, "string-argument-spells-decimal-number")
+			if err == nil && c.ok {
+				nd.Assert(v.(float64) == c.want, "string-argument-value")
+			}
+		}
+	case 5:
+		// every 3-character string over digits, sign, point, exponent, base-prefix letters and underscore:
+		// accepted exactly when it is a decimal floating-point spelling, with that value
+		s := nd.StringFrom(3, "01x_.e-")
+		v, err := fEval("s | plus: 0", map[string]any{"s": s})
+		want, perr := strconv.ParseFloat(s, 64)
+		nd.Assert((err == nil) == (perr == nil), "string-accepted-iff-decimal-spelling")
+		if err == nil && perr == nil {
+			nd.Assert(v.(float64) == want, "string-spelling-value")
+		}
 	case 0:
 		v, err := fEval("'12' | plus: 3", nil)
 		nd.Assert(err == nil && v.(float64) == 15, "numeric-string-receiver")
